@@ -599,23 +599,36 @@ func defectPredict(k kase) (feature string, pred obs, ok bool) {
 	return "", obs{}, false
 }
 
+func allowedFor(k kase, o obs) allowed {
+	if o.orderOwned {
+		return reference(k)
+	}
+	return referenceAnyOrder(k)
+}
+
+// explain renders a failing case for the report.
+func explain(k kase, o obs) string {
+	switch {
+	case o.kind == obsPanic:
+		return o.msg
+	case o.kind == obsNoAuth:
+		return "the route reports no security requirements although the operation declares some"
+	}
+	return fmt.Sprintf("observed %s; the text allows: %s", o, allowedFor(k, o).describe(k))
+}
+
 // judge compares one observation with the reference; "" = satisfied.
-func judge(k kase, o obs) (class, what string) {
+func judge(k kase, o obs) (class string) {
 	if o.kind == obsPanic {
-		return "panic", o.msg
+		return "panic"
 	}
 	if k.decl == declNone {
-		return "", "" // the operation declares no requirements: the property does not speak
+		return "" // the operation declares no requirements: the property does not speak
 	}
 	if o.kind == obsNoAuth {
-		return "requirements-ignored", "the route reports no security requirements although the operation declares some"
+		return "requirements-ignored"
 	}
-	var al allowed
-	if o.orderOwned {
-		al = reference(k)
-	} else {
-		al = referenceAnyOrder(k)
-	}
+	al := allowedFor(k, o)
 	class = ""
 	switch o.kind {
 	case obsRun:
@@ -644,16 +657,17 @@ func judge(k kase, o obs) (class, what string) {
 			class = "refusal-side-effects"
 		}
 	case obsOther:
-		if !al.other {
+		if !al.other && al.run == 0 && k.level == lvlHandler {
+			class = "not-refused" // the security layer let through a request that must be refused; something later answered
+		} else if !al.other {
 			class = "unexpected-outcome"
 		} else if o.handlerCalls != 0 {
 			class = "handler-count"
 		}
 	}
 	if class == "" {
-		return "", ""
+		return ""
 	}
-	what = fmt.Sprintf("observed %s; the text allows: %s", o, al.describe(k))
 	if feature, pred, ok := defectPredict(k); ok && o.orderOwned {
 		same := false
 		switch {
@@ -667,8 +681,8 @@ func judge(k kase, o obs) (class, what string) {
 			same = pred.tag == o.tag && o.status == tagStatus[o.tag] && o.handlerCalls == 0 && o.consumerCalls == 0 && o.bodyBytes == 0
 		}
 		if same {
-			return "unsatisfied-alternative-decides/" + feature, what
+			return "unsatisfied-alternative-decides/" + feature
 		}
 	}
-	return class, what
+	return class
 }
